@@ -288,7 +288,15 @@ Inductive op :=
 (* static_vector constructors of a scoped third object *)
 | CtorN (k : nat)                         (* { Vec c(k); } *)
 | CtorNVal (k : nat) (x : Z)              (* T v(x); { Vec c(k, v); } *)
-| CtorRange (xs : list Z).                (* T src[] = xs; { Vec c(src, src + n); } *)
+| CtorRange (xs : list Z)                 (* T src[] = xs; { Vec c(src, src + n); } *)
+(* sources that are not random-access iterators (forward iterators over T src[] = xs): the
+   `if constexpr (RandomAccessIterator)` capacity precondition is absent, the elements are appended
+   one by one and emplace_back's own precondition stops the loop when the vector is full *)
+| InsertRangeFwd (t : bool) (pos : nat) (xs : list Z)       (* v.insert(p, fwd(src), fwd(src + n)) *)
+| MoveInsertRangeFwd (t : bool) (pos : nat) (xs : list Z)   (* v.move_insert(p, fwd(src), fwd(src + n)) *)
+| AssignRangeFwd (t : bool) (xs : list Z)                   (* v.assign(fwd(src), fwd(src + n)) *)
+| CtorRangeFwd (xs : list Z)                                (* { Vec c(fwd(src), fwd(src + n)); } *)
+| CtorMoveArr (xs : list Z).              (* T src[n] = xs; { Vec c(move(src)); }   static_vector(c_array<T, n>&&) *)
 
 Definition cid (t : bool) : nat := if t then 1 else 0.
 Definition sel (t : bool) (s : nat * nat) : nat := if t then snd s else fst s.
@@ -387,6 +395,17 @@ Definition insert_range (c n pos : nat) (srcs : list loc) : G nat :=
   do n' <- emplace_all c n (map Copy srcs) ;
   exe rotate_g c pos n n' ;
   ret n'.
+(* the same two members for a source that is not a random-access iterator *)
+Definition move_insert_fwd (c n pos : nat) (srcs : list loc) : G nat :=
+  exe require (pos <=? n) ;
+  do n' <- emplace_all c n (map mv srcs) ;
+  exe rotate_g c pos n n' ;
+  ret n'.
+Definition insert_range_fwd (c n pos : nat) (srcs : list loc) : G nat :=
+  exe require (pos <=? n) ;
+  do n' <- emplace_all c n (map Copy srcs) ;
+  exe rotate_g c pos n n' ;
+  ret n'.
 (* insert(position, T&&) / insert(position, T const&) / emplace(position, args...) *)
 Definition insert_rv (c n pos : nat) (src : loc) : G nat :=
   exe require (negb (n =? cap)) ; exe require (pos <=? n) ; move_insert c n pos [src].
@@ -442,6 +461,9 @@ Definition assign_n (c n k : nat) (src : loc) : G nat :=
   exe require (k <=? cap) ; do n0 <- clear c n ; insert_n c n0 0 k src.
 Definition assign_range (c n : nat) (srcs : list loc) : G nat :=
   exe require (length srcs <=? cap) ; do n0 <- clear c n ; insert_range c n0 0 srcs.
+(* assign(first, last), not random access: clear(); insert(begin(), first, last) *)
+Definition assign_range_fwd (c n : nat) (srcs : list loc) : G nat :=
+  do n0 <- clear c n ; insert_range_fwd c n0 0 srcs.
 
 (** ** static_set members; vals = the current element values (the comparisons read them) *)
 (* insert(value_type&&): lower_bound; equivalent key present -> nothing; full -> nothing;
@@ -591,6 +613,17 @@ Definition step_sv (s : nat * nat) (m : vmem) (o : op) : G (nat * nat) :=
       (* static_vector(first, last): TETL_PRECONDITION(last - first <= capacity()); insert(begin(), first, last) *)
       do _ <- with_ext xs (exe require (length xs <=? cap) ;
                            do n <- insert_range 2 0 0 (exts (length xs)) ; exe emit (destructor 2 n) ; ret 0) ;
+      ret s
+  | InsertRangeFwd t pos xs => on t (with_ext xs (insert_range_fwd (cid t) (sel t s) pos (exts (length xs))))
+  | MoveInsertRangeFwd t pos xs => on t (with_ext xs (move_insert_fwd (cid t) (sel t s) pos (exts (length xs))))
+  | AssignRangeFwd t xs => on t (with_ext xs (assign_range_fwd (cid t) (sel t s) (exts (length xs))))
+  | CtorRangeFwd xs =>
+      (* static_vector(first, last), not random access: insert(begin(), first, last) *)
+      do _ <- with_ext xs (do n <- insert_range_fwd 2 0 0 (exts (length xs)) ; exe emit (destructor 2 n) ; ret 0) ;
+      ret s
+  | CtorMoveArr xs =>
+      (* static_vector(c_array<T, Size>&&): move_insert(begin(), begin(source), end(source)) *)
+      do _ <- with_ext xs (do n <- move_insert 2 0 0 (exts (length xs)) ; exe emit (destructor 2 n) ; ret 0) ;
       ret s
   | _ => ret s                           (* not a static_vector operation: never generated *)
   end.
